@@ -21,14 +21,25 @@
   `u·min ((1-a)(b1-b0)/ay) (a(d0-d1)/(1-ay))` in Case III.  The eight expressions of the Rust `match`
   collapse to these (sub-branch 1 vs 2 only changes the textual form: `px` or `1-px` cancels).
 
+  Ties (repair 4d5bbb1 of the crate): outside Case I, `b0 == b1 || d0 == d1` is decided BEFORE the sub-case
+  comparison and gives `k = 0` (tag `.Tie`; `C14_tie`, on the closed domain).  The closed form is unchanged:
+  `Kq = 0` at a tie (`Kq_tie`), and that is also what the sub-cases reachable in exact arithmetic returned before
+  the repair (II.B.1/II.B.2 at `d0 = d1`, III.A.1/III.A.2 at `b0 = b1`); the repair matters for rounding, where the
+  comparison `pyx > r` can select the 0/0 of II.A.2 / III.B.2 (`SLV.Props.Pinned.C14_pinned_deduce_tie_nan`).
+  Consequently the branch theorems `C14_nonneg_IIB1/IIB2` now assume `d0 < d1` and `C14_nonneg_IIIA1/IIIA2` assume
+  `b0 < b1` (with `≤` the tie inputs satisfy their hypotheses but carry the tag `.Tie`); `IIA1/IIA2` and
+  `IIIB1/IIIB2` keep `≤`, their A- resp. B-condition excludes the tie.
+
   Division by zero: II.A.2 divides by `d1 - d0` and III.B.2 by `b1 - b0`, which the outer case condition
-  only bounds by `≥ 0`.  On the open domain neither can vanish in its branch
+  (and the tie arm) make non-zero; independently of the tie arm, on the open domain neither can vanish in its branch
   (`C14_IIA_divisor_pos`, `C14_IIIB_divisor_pos`): the A-condition `pyx ≤ r` of Case II reads
   `a(b0-b1)(1-ay) ≤ ay(1-a)(d1-d0)` with a strictly positive left side, and the B-condition of Case III
   reads `(1-a)(b1-b0)(1-ay) > ay a(d0-d1) > 0`.  So the model never produces `nan`/`inf` on `Dom14` and
-  NO extra hypothesis is needed: all nine branches are proved (`C14_nonneg`), nothing is `_partial`.
-  (On the boundary, e.g. `a = 0`, the 0/0 does occur — `C14_boundary_a0_rejected` — but that is outside
-  the property's domain.)
+  NO extra hypothesis is needed: all ten branches are proved (`C14_nonneg`), nothing is `_partial`.
+  (On the boundary the 0/0 does occur, e.g. at `P = 0` — `C14_boundary_P0_rejected` — but that is outside
+  the property's domain.  The former boundary witness with `a = 0` was a tie `d0 = d1`; it is accepted since the
+  repair: `C14_boundary_a0_tie_accepted`, and rejected by the pre-repair operator:
+  `SLV.Props.Pinned.C14_pinned_boundary_a0_rejected`.)
 
   The formerly failing Case III input of the pinned tree is `SLV.Props.Pinned.C14_repaired_accepts`
   (SLV/Props/Pinned.lean); it lies in `Dom14` and is covered by `C14_closed_form` (see `C14_repaired`).
@@ -148,6 +159,27 @@ theorem C14_case1 (hx : BWF b d u a) (h0 : SWF3 b0 d0 u0) (h1 : SWF3 b1 d1 u1)
   simp only [mul_zero, sub_zero, add_zero]
   rw [BOp.tryNew_fin_ok w.hb w.hd w.hu w.hs w.ha0 w.ha1]
 
+/-! ### 2b. the tie arm -/
+
+/-- Tie arm (repair 4d5bbb1): outside Case I, if the conditionals tie in belief or in disbelief then `k = 0` without
+    any comparison of `pyx` with `r` and without any division; the result `(bI, dI, uI; ay)` is accepted and
+    well-formed, and it is the closed form (`Kq = 0`).  Like Case I this holds on the closed domain: any well-formed
+    antecedent (absolute ones, `a = 0`, `a = 1` included), any `0 ≤ ay ≤ 1`. -/
+theorem C14_tie (hx : BWF b d u a) (h0 : SWF3 b0 d0 u0) (h1 : SWF3 b1 d1 u1)
+    (hy0 : 0 ≤ ay) (hy1 : ay ≤ 1) (hI : ¬(b1 < b0 ↔ d1 < d0)) (ht : b0 = b1 ∨ d0 = d1) :
+    BOp.deduce (liftB (f := f) b d u a) (liftS b0 d0 u0) (liftS b1 d1 u1) (XQ.fin ay)
+      = (.ok (liftB (mixq b d u a b0 b1) (mixq b d u a d0 d1) (mixq b d u a u0 u1) ay), .Tie) ∧
+    BWF (mixq b d u a b0 b1) (mixq b d u a d0 d1) (mixq b d u a u0 u1) ay ∧
+    Kq u a b0 d0 b1 d1 ay = 0 := by
+  have w : BWF (mixq b d u a b0 b1) (mixq b d u a d0 d1) (mixq b d u a u0 u1) ay :=
+    ⟨mixq_nonneg hx h0.hb h1.hb, mixq_nonneg hx h0.hd h1.hd, mixq_nonneg hx h0.hu h1.hu,
+      mixq_sum hx.hs h0.hs h1.hs, hy0, hy1⟩
+  refine ⟨?_, w, Kq_tie hx.ha0 hy0 hy1 ht⟩
+  have hK := deduceK_Tie0 (f := f) (b := b) (d := d) (u := u) (a := a) (u0 := u0) (u1 := u1) (ay := ay) hI ht
+  rw [deduce_fin_of_K (by rw [hK]), hK]
+  simp only [mul_zero, sub_zero, add_zero]
+  rw [BOp.tryNew_fin_ok w.hb w.hd w.hu w.hs w.ha0 w.ha1]
+
 /-! ### 3. dogmatic antecedent -/
 
 /-- `u = 0`: `k = 0` in every branch (no 0/0 arises on the open domain) and the result is the
@@ -164,7 +196,7 @@ theorem C14_dogmatic (h : Dom14 b d 0 a b0 d0 u0 b1 d1 u1 ay) :
   simp only [e, mul_zero, sub_zero, add_zero] at w c
   exact ⟨c, w⟩
 
-/-! ### 4. the eight non-trivial branches -/
+/-! ### 4. the eight sub-cases of Case II / III -/
 
 /-- the divisor `d1 - d0` of Case II.A.2 is strictly positive whenever the A-branch of Case II is
     taken: the 0/0 of the Rust expression cannot occur on the open domain -/
@@ -206,8 +238,9 @@ theorem C14_nonneg_IIA2 (hb : b1 < b0) (hd : d0 ≤ d1) (hA : pyxq a b0 u0 b1 u1
   deduce_case h (deduceK_IIA2 h hb hd hA hP)
     (Kq_IIA h.hy0 h.hy1 hb hd (by linarith [pyx_sub_rII (a := a) (ay := ay) h.c0.hs h.c1.hs]))
 
-/-- Case II.B.1: `b0 > b1`, `d0 ≤ d1`, `pyx > r`, `P ≤ a`; `k = (1-a) u (d1-d0)/(1-ay)` -/
-theorem C14_nonneg_IIB1 (hb : b1 < b0) (hd : d0 ≤ d1) (hB : rII d0 b1 ay < pyxq a b0 u0 b1 u1 ay)
+/-- Case II.B.1: `b0 > b1`, `d0 < d1`, `pyx > r`, `P ≤ a`; `k = (1-a) u (d1-d0)/(1-ay)`.
+    (`d0 < d1`, not `≤`: since repair 4d5bbb1 the tie `d0 = d1` is taken by the tie arm, `C14_tie`.) -/
+theorem C14_nonneg_IIB1 (hb : b1 < b0) (hd : d0 < d1) (hB : rII d0 b1 ay < pyxq a b0 u0 b1 u1 ay)
     (hP : b + a * u ≤ a) :
     BOp.deduce (liftB (f := f) b d u a) (liftS b0 d0 u0) (liftS b1 d1 u1) (XQ.fin ay)
       = (.ok (liftB (mixq b d u a b0 b1 - ay * K_IIB) (mixq b d u a d0 d1 - (1 - ay) * K_IIB)
@@ -216,10 +249,10 @@ theorem C14_nonneg_IIB1 (hb : b1 < b0) (hd : d0 ≤ d1) (hB : rII d0 b1 ay < pyx
     BWF (mixq b d u a b0 b1 - ay * K_IIB) (mixq b d u a d0 d1 - (1 - ay) * K_IIB)
       (mixq b d u a u0 u1 + K_IIB) ay :=
   deduce_case h (deduceK_IIB1 h hb hd hB hP)
-    (Kq_IIB h.hy0 h.hy1 hb hd (by linarith [pyx_sub_rII (a := a) (ay := ay) h.c0.hs h.c1.hs]))
+    (Kq_IIB h.hy0 h.hy1 hb hd.le (by linarith [pyx_sub_rII (a := a) (ay := ay) h.c0.hs h.c1.hs]))
 
-/-- Case II.B.2: `b0 > b1`, `d0 ≤ d1`, `pyx > r`, `P > a`; same `k` -/
-theorem C14_nonneg_IIB2 (hb : b1 < b0) (hd : d0 ≤ d1) (hB : rII d0 b1 ay < pyxq a b0 u0 b1 u1 ay)
+/-- Case II.B.2: `b0 > b1`, `d0 < d1`, `pyx > r`, `P > a`; same `k` -/
+theorem C14_nonneg_IIB2 (hb : b1 < b0) (hd : d0 < d1) (hB : rII d0 b1 ay < pyxq a b0 u0 b1 u1 ay)
     (hP : a < b + a * u) :
     BOp.deduce (liftB (f := f) b d u a) (liftS b0 d0 u0) (liftS b1 d1 u1) (XQ.fin ay)
       = (.ok (liftB (mixq b d u a b0 b1 - ay * K_IIB) (mixq b d u a d0 d1 - (1 - ay) * K_IIB)
@@ -228,10 +261,11 @@ theorem C14_nonneg_IIB2 (hb : b1 < b0) (hd : d0 ≤ d1) (hB : rII d0 b1 ay < pyx
     BWF (mixq b d u a b0 b1 - ay * K_IIB) (mixq b d u a d0 d1 - (1 - ay) * K_IIB)
       (mixq b d u a u0 u1 + K_IIB) ay :=
   deduce_case h (deduceK_IIB2 h hb hd hB hP)
-    (Kq_IIB h.hy0 h.hy1 hb hd (by linarith [pyx_sub_rII (a := a) (ay := ay) h.c0.hs h.c1.hs]))
+    (Kq_IIB h.hy0 h.hy1 hb hd.le (by linarith [pyx_sub_rII (a := a) (ay := ay) h.c0.hs h.c1.hs]))
 
-/-- Case III.A.1: `b0 ≤ b1`, `d0 > d1`, `pyx ≤ r`, `P ≤ a`; `k = (1-a) u (b1-b0)/ay` -/
-theorem C14_nonneg_IIIA1 (hb : b0 ≤ b1) (hd : d1 < d0) (hA : pyxq a b0 u0 b1 u1 ay ≤ rIII b0 d1 ay)
+/-- Case III.A.1: `b0 < b1`, `d0 > d1`, `pyx ≤ r`, `P ≤ a`; `k = (1-a) u (b1-b0)/ay`.
+    (`b0 < b1`, not `≤`: since repair 4d5bbb1 the tie `b0 = b1` is taken by the tie arm, `C14_tie`.) -/
+theorem C14_nonneg_IIIA1 (hb : b0 < b1) (hd : d1 < d0) (hA : pyxq a b0 u0 b1 u1 ay ≤ rIII b0 d1 ay)
     (hP : b + a * u ≤ a) :
     BOp.deduce (liftB (f := f) b d u a) (liftS b0 d0 u0) (liftS b1 d1 u1) (XQ.fin ay)
       = (.ok (liftB (mixq b d u a b0 b1 - ay * K_IIIA) (mixq b d u a d0 d1 - (1 - ay) * K_IIIA)
@@ -240,10 +274,10 @@ theorem C14_nonneg_IIIA1 (hb : b0 ≤ b1) (hd : d1 < d0) (hA : pyxq a b0 u0 b1 u
     BWF (mixq b d u a b0 b1 - ay * K_IIIA) (mixq b d u a d0 d1 - (1 - ay) * K_IIIA)
       (mixq b d u a u0 u1 + K_IIIA) ay :=
   deduce_case h (deduceK_IIIA1 h hb hd hA hP)
-    (Kq_IIIA h.hy0 h.hy1 hb hd (by linarith [pyx_sub_rIII (a := a) (ay := ay) h.c0.hs h.c1.hs]))
+    (Kq_IIIA h.hy0 h.hy1 hb.le hd (by linarith [pyx_sub_rIII (a := a) (ay := ay) h.c0.hs h.c1.hs]))
 
-/-- Case III.A.2: `b0 ≤ b1`, `d0 > d1`, `pyx ≤ r`, `P > a`; same `k` -/
-theorem C14_nonneg_IIIA2 (hb : b0 ≤ b1) (hd : d1 < d0) (hA : pyxq a b0 u0 b1 u1 ay ≤ rIII b0 d1 ay)
+/-- Case III.A.2: `b0 < b1`, `d0 > d1`, `pyx ≤ r`, `P > a`; same `k` -/
+theorem C14_nonneg_IIIA2 (hb : b0 < b1) (hd : d1 < d0) (hA : pyxq a b0 u0 b1 u1 ay ≤ rIII b0 d1 ay)
     (hP : a < b + a * u) :
     BOp.deduce (liftB (f := f) b d u a) (liftS b0 d0 u0) (liftS b1 d1 u1) (XQ.fin ay)
       = (.ok (liftB (mixq b d u a b0 b1 - ay * K_IIIA) (mixq b d u a d0 d1 - (1 - ay) * K_IIIA)
@@ -252,7 +286,7 @@ theorem C14_nonneg_IIIA2 (hb : b0 ≤ b1) (hd : d1 < d0) (hA : pyxq a b0 u0 b1 u
     BWF (mixq b d u a b0 b1 - ay * K_IIIA) (mixq b d u a d0 d1 - (1 - ay) * K_IIIA)
       (mixq b d u a u0 u1 + K_IIIA) ay :=
   deduce_case h (deduceK_IIIA2 h hb hd hA hP)
-    (Kq_IIIA h.hy0 h.hy1 hb hd (by linarith [pyx_sub_rIII (a := a) (ay := ay) h.c0.hs h.c1.hs]))
+    (Kq_IIIA h.hy0 h.hy1 hb.le hd (by linarith [pyx_sub_rIII (a := a) (ay := ay) h.c0.hs h.c1.hs]))
 
 /-- Case III.B.1: `b0 ≤ b1`, `d0 > d1`, `pyx > r`, `P ≤ a`; `k = a u (d0-d1)/(1-ay)` -/
 theorem C14_nonneg_IIIB1 (hb : b0 ≤ b1) (hd : d1 < d0) (hB : rIII b0 d1 ay < pyxq a b0 u0 b1 u1 ay)
@@ -279,7 +313,7 @@ theorem C14_nonneg_IIIB2 (hb : b0 ≤ b1) (hd : d1 < d0) (hB : rIII b0 d1 ay < p
   deduce_case h (deduceK_IIIB2 h hb hd hB hP)
     (Kq_IIIB h.hy0 h.hy1 hb hd (by linarith [pyx_sub_rIII (a := a) (ay := ay) h.c0.hs h.c1.hs]))
 
-/-- Umbrella (all nine branches, nothing missing): on the open domain `deduce` returns, together with
+/-- Umbrella (all ten branches -- Case I, the tie arm, the eight sub-cases --, nothing missing): on the open domain `deduce` returns, together with
     some branch tag, an accepted opinion `liftB rb rd ru ay` whose components are non-negative, at most
     one and add up to one. -/
 theorem C14_nonneg :
@@ -298,7 +332,7 @@ end cases
 /-- `x ↔ ¬x`: negating the antecedent and exchanging the two conditionals leaves the result unchanged.
     (Case II.s.1 ↔ III.s.2 and II.s.2 ↔ III.s.1; at `P = a` both sides take sub-branch 1, whose closed
     form equals that of sub-branch 2, and the ties `b0 = b1` / `d0 = d1` fall into Case I on one side and
-    a zero `k` on the other — no extra hypothesis.) -/
+    into the tie arm (`k = 0`) on the other — no extra hypothesis.) -/
 theorem C14_swap_x (h : Dom14 b d u a b0 d0 u0 b1 d1 u1 ay) :
     (BOp.deduce (BOp.neg (liftB (f := f) b d u a)) (liftS b1 d1 u1) (liftS b0 d0 u0) (XQ.fin ay)).1
       = (BOp.deduce (liftB (f := f) b d u a) (liftS b0 d0 u0) (liftS b1 d1 u1) (XQ.fin ay)).1 := by
@@ -381,24 +415,50 @@ example : (BOp.deduce (liftB (f := .f64) (5/8) (1/8) (1/4) (1/2)) (liftS (1/4) (
     (liftS (1/2) (1/4) (1/4)) (XQ.fin (1/4))).2 = .IIIB2 := by
   decide +kernel
 
+/-- a tie input in the open domain (the binary32 witness of `SLV.Props.Pinned.C14_pinned_deduce_tie_nan` as
+    rationals): x = (3/8, 1/2, 1/8; 1/8), y|x = (1/8, 0, 7/8), y|¬x = (127/1024, 0, 897/1024), ay = 4095/4096 -/
+example : Dom14 (3/8) (1/2) (1/8) (1/8) (1/8) 0 (7/8) (127/1024) 0 (897/1024) (4095/4096) := by
+  refine ⟨⟨?_, ?_, ?_, ?_, ?_, ?_⟩, ?_, ?_, ?_, ?_, ⟨?_, ?_, ?_, ?_⟩, ⟨?_, ?_, ?_, ?_⟩, ?_, ?_⟩ <;> norm_num
+
+/-- … it satisfies the hypotheses of `C14_tie` (`b0 > b1`, `d0 = d1`) -/
+example : ¬((127/1024 : ℚ) < 1/8 ↔ (0 : ℚ) < 0) ∧ ((1/8 : ℚ) = 127/1024 ∨ (0 : ℚ) = 0) := by
+  norm_num
+
+/-- … and the model takes the tie arm on it -/
+example : (BOp.deduce (liftB (f := .f64) (3/8) (1/2) (1/8) (1/8)) (liftS (1/8) 0 (7/8))
+    (liftS (127/1024) 0 (897/1024)) (XQ.fin (4095/4096))).2 = .Tie := by
+  decide +kernel
+
 /-- a dogmatic antecedent in the open domain (for `C14_dogmatic`) -/
 example : Dom14 (1/4) (3/4) 0 (1/2) (1/2) (1/4) (1/4) (1/4) (1/2) (1/4) (3/4) := by
   refine ⟨⟨?_, ?_, ?_, ?_, ?_, ?_⟩, ?_, ?_, ?_, ?_, ⟨?_, ?_, ?_, ?_⟩, ⟨?_, ?_, ?_, ?_⟩, ?_, ?_⟩ <;> norm_num
 
-/-- Remark (outside the property's domain, shows `0 < a` is needed): with antecedent base rate `a = 0`
-    the input x = (1/2, 1/4, 1/4; 0), y|x = (1/2, 1/4, 1/4), y|¬x = (1/4, 1/4, 1/2), ay = 1/2 reaches
-    Case II.A.2 with `d0 = d1`; the Rust expression is 0/0 = NaN and the constructor rejects it (the Rust
-    `new` panics), although x and both conditionals are well-formed. -/
-theorem C14_boundary_a0_rejected :
+/-- Remark (outside the property's domain): with antecedent base rate `a = 0` the input x = (1/2, 1/4, 1/4; 0),
+    y|x = (1/2, 1/4, 1/4), y|¬x = (1/4, 1/4, 1/2), ay = 1/2 is a Case II input with `d0 = d1`.  Before repair 4d5bbb1 it
+    reached II.A.2, 0/0 = NaN, and the constructor rejected it (`SLV.Props.Pinned.C14_pinned_boundary_a0_rejected`;
+    this theorem used to be `C14_boundary_a0_rejected` and is FALSE for the repaired operator).  It now takes the tie
+    arm and is accepted (an instance of `C14_tie`). -/
+theorem C14_boundary_a0_tie_accepted :
     (match BOp.deduce (liftB (f := .f64) (1/2) (1/4) (1/4) 0) (liftS (1/2) (1/4) (1/4))
         (liftS (1/4) (1/4) (1/2)) (XQ.fin (1/2)) with
-      | (.error _, .IIA2) => true | _ => false) = true := by
+      | (.ok _, .Tie) => true | _ => false) = true := by
+  decide +kernel
+
+/-- Remark (outside the property's domain, shows `0 < P` is needed): x = (0, 1/2, 1/2; 0) has projected probability
+    `P = 0`; with y|x = (1/2, 1/4, 1/4), y|¬x = (1/4, 1/2, 1/4), ay = 1/2 (no tie) it reaches Case II.A.1, whose divisor
+    is `P·ay = 0` under a zero numerator: 0/0 = NaN and the constructor rejects it (the Rust `new` panics), although x
+    and both conditionals are well-formed. -/
+theorem C14_boundary_P0_rejected :
+    (match BOp.deduce (liftB (f := .f64) 0 (1/2) (1/2) 0) (liftS (1/2) (1/4) (1/4))
+        (liftS (1/4) (1/2) (1/4)) (XQ.fin (1/2)) with
+      | (.error _, .IIA1) => true | _ => false) = true := by
   decide +kernel
 
 /-- `C14_repaired`: the formerly failing input of the pinned tree
     (x = (1/16, 6/16, 9/16; 1/4), y|x = (0, 10/16, 6/16), y|¬x = (0, 5/16, 11/16), ay = 3/4; kernel-checked
     acceptance: `SLV.Props.Pinned.C14_repaired_accepts` in SLV/Props/Pinned.lean) lies in the open
-    domain, so `C14_closed_form` applies to it: it is a Case III input with `b0 = b1`, hence `k = 0`. -/
+    domain, so `C14_closed_form` applies to it: `d0 > d1` with `b0 = b1`, hence `k = 0` (via III.A.1 before repair
+    4d5bbb1, via the tie arm since). -/
 theorem C14_repaired :
     Dom14 (1/16) (6/16) (9/16) (1/4) 0 (10/16) (6/16) 0 (5/16) (11/16) (3/4) ∧
     Kq (9/16) (1/4) 0 (10/16) 0 (5/16) (3/4) = 0 := by
